@@ -373,7 +373,16 @@ func TestVerifC18Search(t *testing.T) {
 				}
 			}(g)
 		}
-		wg.Wait()
+		waited := make(chan struct{})
+		go func() { wg.Wait(); close(waited) }()
+		select {
+		case <-waited:
+		case <-time.After(30 * time.Second):
+			// (a search that never returns - with or without a live context - is the property's "must return")
+			out.Emit(c18Obs{Case: 9000 + conc, Via: "findEpochNumberFromSignature/cancelled-requests", N: 3, Limit: conc, Outcome: []string{"fail", "fail", "ok"}, Order: []int{}, ErrJobs: []int{}, NotStarted: []int{},
+				Kind: "hang", Detail: "1 200 searches with contexts cancelled while they run did not all return within 30 s"})
+			return
+		}
 		o := c18Obs{Case: 9000 + conc, Via: "findEpochNumberFromSignature/after-cancelled-requests", N: 3, Limit: conc, Outcome: []string{"fail", "fail", "ok"}, Order: []int{}, ErrJobs: []int{}, NotStarted: []int{}}
 		var got uint64
 		var err error
